@@ -21,6 +21,10 @@ def gen_simcase(rng, tier):
     style = rng.choice(["smallint", "binary", "dyadic", "smallint"])
     draw = gen.reward_stream(rng, style)
     ds = [rng.choice(present) for _ in range(n)]
+    if rng.random() < 0.3 and len(present) > 1:
+        # an arm that occurs only in the first rows (on one side of an ordered split only)
+        a0 = present[0]
+        ds = [a0 if i < 3 else rng.choice(present[1:]) for i in range(n)]
     rs = [draw() for _ in range(n)]
     cx = gen.gen_ctx(rng, n, d, 0, 4)
     nb = rng.randint(1, 3)
@@ -71,6 +75,11 @@ def gen_simcase(rng, tier):
     test_size = rng.choice([0.2, 0.3, 0.5, 0.25])
     n_test = n - int(n * (1 - test_size))
     bs = rng.choice([0, 0, 1, rng.randint(1, max(1, n_test)), n_test, max(1, n_test // 2), 2, 3])
+    if rng.random() < 0.3:
+        # rewards all above (or all below) zero: an arm that occurs on one side of the split only must not pick up the 0 of the
+        # placeholder statistics of the other side
+        sh = rng.choice([10.0, -10.0, 3.5])
+        rs = [r + sh if sh > 0 else -abs(r) + sh for r in rs]
     if any(b["lp"][0] == "thompson" and b["lp"][1] is None for b in bandits):
         rs = [float(int(abs(r)) % 2) for r in rs]
     if any(b["lp"][0] == "popularity" for b in bandits):
